@@ -20,7 +20,7 @@ from gym_gridverse.state import State
 from gym_gridverse import spaces as spaces_mod
 
 from .. import compose, enc, gen, workloads
-from ..monitor import call_real, describe_exc, exc_site, reach
+from ..monitor import call_real, describe_exc, env_rng, exc_site, reach, stateful_slots
 
 ID = 'C01'
 LEVEL = 'exploration'
@@ -344,7 +344,7 @@ def predicate_probes(ctx, env, decl, state, label, payload_fn):
 
 
 def rng_state(env):
-    r = getattr(env, '_rng', None)
+    r = env_rng(env)
     return None if r is None else repr(r.bit_generator.state)
 
 
@@ -359,6 +359,19 @@ JUNK_ACTIONS = [None, 0, 1, 7, -1, 'MOVE_FORWARD', 'junk', 2.5, np.int64(1), (),
 def rejected_actions(ctx, env, state, label, payload_fn):
     """every Action member outside the action space: ValueError, and nothing
     changes (state, memoised observation, generator state)"""
+    slots = getattr(env, '_gvmon_slots', None)
+    if slots is None:
+        slots = (None, None)
+        try:
+            ok_r, _ = call_real(env.reset)
+            if ok_r:
+                slots = stateful_slots(env)
+        except Exception:  # noqa
+            slots = (None, None)
+        try:
+            env._gvmon_slots = slots
+        except Exception:  # noqa
+            pass
     outside = [a for a in Action if a not in env.action_space.actions]
     # values that are not Action members at all (an index, a name, None, containers, arrays) are outside every action
     # space too; they get the same treatment, once per label family
@@ -376,11 +389,20 @@ def rejected_actions(ctx, env, state, label, payload_fn):
                           f'{label}: ActionSpace.contains({nm}) -> {want_member!r} for an action outside',
                           'rejected', payload_fn())
         for stateful in (False, True):
-            env._state = state
-            env._observation = None
-            _ = env.observation  # memoise
-            memo = env._observation
-            before_s, before_r = enc.es(env._state), rng_state(env)
+            # put the stateful environment into `state` with its observation memoised (the slots are found by identity with
+            # what the public properties return; an environment that keeps them elsewhere only gets the functional variant)
+            if stateful and None in slots:
+                ctx.hit('rejected_action.stateful_variant_unavailable')
+                continue
+            if None not in slots:
+                setattr(env, slots[0], state)
+                setattr(env, slots[1], None)
+                _ = env.observation  # memoise
+                memo = getattr(env, slots[1])
+            else:
+                memo = None
+            cur_state = (lambda: getattr(env, slots[0])) if None not in slots else (lambda: state)
+            before_s, before_r = enc.es(cur_state()), rng_state(env)
             if stateful:
                 ok, res = call_real(env.step, a)
             else:
@@ -396,10 +418,10 @@ def rejected_actions(ctx, env, state, label, payload_fn):
                 ctx.violation('rejected_action', 'action.wrong_exception',
                               f'{label}: {tag}({a_name}) rejected with {describe_exc(res)} instead of ValueError',
                               'rejected', payload_fn())
-            if enc.es(env._state) != before_s or env._state is not state:
+            if enc.es(cur_state()) != before_s or cur_state() is not state:
                 ctx.violation('rejected_action', 'action.changed_state',
                               f'{label}: rejected {tag}({a_name}) changed the state', 'rejected', payload_fn())
-            if env._observation is not memo:
+            if None not in slots and getattr(env, slots[1]) is not memo:
                 ctx.violation('rejected_action', 'action.changed_observation',
                               f'{label}: rejected {tag}({a_name}) dropped/replaced the memoised observation',
                               'rejected', payload_fn())
